@@ -34,7 +34,7 @@ def mergeWith (new other : Resp) : Option (Except Unit Resp) :=
   | .recent n, .recent m => if m > n then some (.error ()) else some (.ok (.recent n))
   | .fetch s f u, .fetch s' f' u' =>
       if s' != s then none
-      else some (.ok (.fetch s' (if f.isSome then f else f') (if u.isSome then u else u')))
+      else some (.ok (.fetch s' (f.or f') (u.or u')))
   | _, _ => none
 
 /-- `mergeable.canSkip(other)` -/
